@@ -51,13 +51,36 @@ CHECKS = {
     "C18": ("model_checking", "Audited end-to-end runs (sys.addaudithook installed before rp2 is imported, new interpreter, python -B) of every entry point on valid input and on each fault class: every "
             "effect must be an action of Rp2Run (reads anywhere; writes/renames/removals only under the output directory and ./log; no action exists for socket, name resolution or process "
             "events), inputs byte-identical afterwards; plus the import facts of every source file fed to the same specification.", "4.6, 6 C18, 8"),
+    "C13": ("model_checking", "End-to-end runs of every country entry point (shipped languages, methods, schedules, date windows, 1-3 assets assembled from TLC-generated histories, permuted rows and "
+            "tables, seven unit pairs) with the ComputedData of the same run captured before the generators; rp2_full_report.ods is read back cell by cell and TLC checks (Rp2Docs!FullAssetFails / "
+            "FullSharedFails): every in/out/intra transaction of the window once, time-sorted, fields, running sums and sold percentage; every fraction once with amount, proceeds, cost, gain, "
+            "long/short, k/n labels, fraction percentages; yearly summaries, balances with per-holder totals, average price; Summary sheet; Legend methods and date filters.", "4.7, 6 C13"),
+    "C14": ("model_checking", "Same pipeline for rp2_us and rp2_ie on type-complete inputs (all 14 types) with 1-3 assets sharing sheets: TLC checks (Rp2Docs!TaxReportFails) that the rows of "
+            "tax_report_us/ie.ods are, per asset, exactly the computed fractions (bag equality of amount, proceeds, cost, gain, long/short and k/n labels), each on the sheet the property assigns to "
+            "its transaction type, with dates acquired and sold equal to the local dates, and that sheets without rows are absent.", "4.7, 6 C14"),
+    "C15": ("model_checking", "Same pipeline for runs without from-date (multi-holder, multi-exchange inputs, every country): TLC checks (Rp2Docs!OpenPositionsFails) the holder rows and (exchange, holder) "
+            "rows against the positive computed balances, unrealized cost against the cost of the unconsumed lot parts derived from the computed fractions, realized + unrealized = total acquired cost, "
+            "per-unit cost x total balance = unrealized cost, and weights as exact shares of the total (rational arithmetic on the lattice).", "4.7, 6 C15"),
+    "C19": ("model_checking", "Every hyperlink of rp2_full_report.ods is resolved to what it leads to (the transaction found in the target row) and TLC checks (Rp2Docs!LinkAssetFails / LinkSummaryFails) "
+            "that event and lot cells lead to the row of that very transaction of that asset, carry no link when the window hides it, and that every Summary line leads to the first gain/loss row "
+            "of its year; inputs: 2-3 assets sharing row numbers, rows not time-sorted, windows hiding lots / events, mixed UTC offsets around new year. The row-map design of the generator is "
+            "model-checked in MC_RowMap.", "4.7, 6 C19"),
+    "C20": ("model_checking", "Same pipeline for rp2_jp (-g en / kl / default ja, -f or -t): TLC checks (Rp2Docs!JpReportFails) one sheet per asset and year with transactions, each transaction of the year "
+            "listed once with the columns the property names, the opening balance cells referring to the closing cells of the most recent earlier year sheet of that asset (0 if none), one summary "
+            "sheet per year with one line per asset pointing at that asset-year sheet; inputs with sparse and unordered years. The chaining design is model-checked in MC_JpGen.", "4.7, 6 C20"),
 }
+
+DOCS_TECH = ("TLA+ spec Rp2Docs (abstract documents over the ledger of Rp2Ledger); TLC-generated histories assembled into multi-asset inputs and run end to end in fresh processes; computed data "
+             "captured in-process, written ODS documents read back and projected; TLC validates every run against the spec (Trace_Docs); generator designs model-checked (MC_RowMap, MC_JpGen)")
+DOCS_NOTE = ("Trusted: the ODS reader and the projection of cells onto the lattice (harness/docsread.py, harness/docs.py; titles and type names translated with the gettext catalogs of the tree under "
+             "test), the capture wrapper around rp2_main._find_and_run_report_generators, Python datetime for month/day and date texts, TLC. Computed data is pinned by observation: its own "
+             "correctness is the business of C01-C10.")
 
 RUN_TECH = ("TLA+ spec Rp2Run / Rp2Sheet; TLC enumerates option tuples (MC_Run) and sheet structures (MC_Sheet, checked against the documented grammar); each is concretised and run on the real "
             "rp2 (parse_ods in-process, entry points in fresh processes); TLC validates what every run left behind (Trace_Run / Trace_Sheet)")
 RUN_NOTE = ("Trusted: the concretiser (ezodf writer, .ini writer), the observation of exit status / files / audit events, the list of shipped template languages read from the tree under test, "
             "TLC. Product constants (accepted methods, generators, default languages) are stated in the specification from the documentation.")
-ENGINE_OF = {"C11": "sheet", "C12": "sheet+run", "C16": "run", "C17": "run", "C18": "run"}
+ENGINE_OF = {"C11": "sheet", "C12": "sheet+run", "C16": "run", "C17": "run", "C18": "run", "C13": "docs", "C14": "docs", "C15": "docs", "C19": "docs", "C20": "docs"}
 
 
 def main():
@@ -73,8 +96,8 @@ def main():
             "replay_cmd_template": f"./check {pid} --replay {{path}}",
             "engine": ENGINE_OF.get(pid, "ledger"),
             "level_claimed": {"category": cat, "text": text, "design_ref": ref},
-            "level_note": RUN_NOTE if pid in ENGINE_OF else LEDGER_NOTE,
-            "technique": RUN_TECH if pid in ENGINE_OF else LEDGER_TECH,
+            "level_note": DOCS_NOTE if ENGINE_OF.get(pid) == "docs" else RUN_NOTE if pid in ENGINE_OF else LEDGER_NOTE,
+            "technique": DOCS_TECH if ENGINE_OF.get(pid) == "docs" else RUN_TECH if pid in ENGINE_OF else LEDGER_TECH,
         })
     na = [{"property_id": p["id"], "reason": "check not built yet (work in progress; see DESIGN.md section 10)"} for p in props if p["id"] not in CHECKS]
     m = {
@@ -87,6 +110,8 @@ def main():
                      "kind_free_text": "TLC model checking of spec/MC_Sheet.tla + generated spreadsheets read by the real parse_ods + TLC trace validation (spec/Trace_Sheet.tla)"},
                     {"name": "run", "path": "/verif/harness/run_main.py", "serves_properties": ["C12", "C16", "C17", "C18"],
                      "kind_free_text": "TLC enumeration of option tuples (spec/MC_Run.tla) + end-to-end runs of the entry points in fresh processes + TLC trace validation (spec/Trace_Run.tla)"},
+                    {"name": "docs", "path": "/verif/harness/docs_main.py", "serves_properties": ["C13", "C14", "C15", "C19", "C20"],
+                     "kind_free_text": "end-to-end runs on TLC-generated multi-asset inputs + documents read back + TLC trace validation (spec/Trace_Docs.tla over spec/Rp2Docs.tla) + design models MC_RowMap / MC_JpGen"},
                     {"name": "ledger", "path": "/verif/harness/ledger_main.py", "serves_properties": sorted(p for p in CHECKS if p not in ENGINE_OF),
                      "kind_free_text": "TLC model checking of spec/MC_Ledger.tla + TLC-generated histories (spec/Gen_Hist.tla) run on the real rp2 + TLC trace validation (spec/Trace_Ledger.tla)"}],
         "checks": checks,
